@@ -1,4 +1,8 @@
 import SqlObjVerif.Lemmas.ConcC
+import SqlObjVerif.Lemmas.ConcXMain
+import SqlObjVerif.Lemmas.ConcXStatic
+import SqlObjVerif.Lemmas.PyCacheSSSeq
+import SqlObjVerif.Lemmas.PyCacheSSFrame
 /-!
 # C09 — the instance cache is thread-safe under every interleaving
 
@@ -438,5 +442,170 @@ example (sched : List Tid) (o : Obj) (h : Out.obj 3 o ∈ ((run wAlias.init sche
     the instance, which `expireAll` had copied to `expiredCache` -/
 example : ((run (Cfg.init ⟨true, true, [(1, 0)], [], [1], 1, 100, 2, 0, 0, [0], progsOf [[.get 1], [.expireAll]]⟩)
     [0, 0, 0, 0, 1, 1, 1, 1, 1, 1, 0]).th 0).outs = [.obj 1 0] := by decide
+
+/-! ## the TRANSLATED system: the per-thread programs are the `CacheFactory` methods `vlib/extractors/pycache.py`
+    translates from /repo's `cache.py` on every run (`Extracted/PyCache.lean`), executed by the small-step semantics
+    `Model/PyCacheSS.lean` and interleaved by `Model/ConcX.lean` (any number of threads, any schedule, the lock as
+    data).  `Conc`'s 45 program-counter kinds and their atomic actions are DERIVED: every `Conc` action is matched by
+    one shared access of the translated program followed by at most `ConcX.FUEL` silent micro-steps
+    (`Lemmas/ConcXGet/Misc/Cull.lean`, one lemma per pc kind), so the two systems move in lock step on every schedule
+    and the theorems above hold of the translated system.  Assumed interface (stated in `Model/ConcX.lean`): the
+    callers of the factory (`SQLObject.get`, `_SO_finishCreate`, `CacheSet.*`), the database, reference counting. -/
+
+/-- the initial state of the translated system for a configuration -/
+def Cfg.initX (c : Cfg) : ConcX.XState :=
+  ConcX.mkInitX c.dc c.caches c.strong c.weak c.db c.fresh c.freq c.frac c.cc c.off c.pins c.progs
+
+/-- ONE ACTION: from related states, `Conc.step s t` and the translated `ConcX.step x t` are both `none` (thread
+    finished, or blocked on the cache lock), or both move — the translated thread by the shared access it is parked at
+    plus silent micro-steps of the translated program — and end related.  All 45 pc kinds
+    (`ConcX.good_all`). -/
+theorem C09_translated_step_simulates (s : State) (x : ConcX.XState) (t : Tid) (hs : ConcX.Sim s x) (ha : AInv s)
+    (hf : 0 < s.frac) :
+    match step s t with
+    | some s' => ∃ x', ConcX.step x t = some x' ∧ ConcX.Sim s' x'
+    | none => ConcX.step x t = none :=
+  ConcX.sim_step s x t hs ha hf
+
+/-- EVERY SCHEDULE: the translated system started from the configuration ends related to `Conc`'s run -/
+theorem C09_translated_schedule_simulates (c : Cfg) (hc : c.OK) (hf : 0 < c.frac) (sched : List Tid) :
+    ConcX.Sim (run c.init sched) (ConcX.run c.initX sched) :=
+  ConcX.sim_run _ _ sched (ConcX.sim_init _ _ _ _ _ _ _ _ _ _ _ _)
+    (ainv_init _ _ _ _ _ _ _ _ _ _ _ _ hc.1.1 hc.1.2.1) hf
+
+/-- what the relation says about the observable parts: the lock, the two dicts, the cull counter, every thread's
+    outcomes, and which threads have finished -/
+theorem C09_translated_observables (c : Cfg) (hc : c.OK) (hf : 0 < c.frac) (sched : List Tid) :
+    (ConcX.run c.initX sched).g.sh.owner = (run c.init sched).lock ∧
+    (ConcX.run c.initX sched).g.sh.cache = (run c.init sched).strong ∧
+    (ConcX.run c.initX sched).g.sh.expiredCache = (run c.init sched).weak ∧
+    (ConcX.run c.initX sched).g.sh.cullCount = (run c.init sched).cc ∧
+    (∀ t, ((ConcX.run c.initX sched).th t).outs = ((run c.init sched).th t).outs) ∧
+    (∀ t, ConcX.finished (ConcX.run c.initX sched) t = finished (run c.init sched) t) := by
+  have h := C09_translated_schedule_simulates c hc hf sched
+  refine ⟨by rw [h.g]; rfl, by rw [h.g]; rfl, by rw [h.g]; rfl, by rw [h.g]; rfl, fun t => (h.th t).outs, fun t => ?_⟩
+  have hp := ConcX.pcsim_finished _ _ _ _ (h.th t).pc
+  unfold ConcX.finished finished
+  rw [hp]
+
+/-- `C09_conc_inv` of the translated system: the dicts keep unique keys, and the cache lock is only ever owned by a
+    thread that has not finished -/
+theorem C09_translated_conc_inv (c : Cfg) (hc : c.OK) (hf : 0 < c.frac) (sched : List Tid) :
+    (akeys (ConcX.run c.initX sched).g.sh.cache).Nodup ∧ (akeys (ConcX.run c.initX sched).g.sh.expiredCache).Nodup ∧
+    ∀ t, (ConcX.run c.initX sched).g.sh.owner = some t → ConcX.finished (ConcX.run c.initX sched) t = false := by
+  obtain ⟨h1, h2, h3, _, _, h6⟩ := C09_translated_observables c hc hf sched
+  have ha := C09_conc_inv c hc sched
+  rw [h1, h2, h3]
+  refine ⟨ha.skeys, ha.wkeys, fun t ht => ?_⟩
+  rw [h6]
+  have := (ha.holder t).2 ht
+  unfold finished
+  cases hpc : ((run c.init sched).th t).pc <;> rw [hpc] at this <;> simp_all [holds]
+
+/-- when every thread of the translated system has finished, the cache lock is free -/
+theorem C09_translated_lock_free_at_quiescence (c : Cfg) (hc : c.OK) (hf : 0 < c.frac) (sched : List Tid)
+    (hq : ∀ t, ConcX.finished (ConcX.run c.initX sched) t = true) : (ConcX.run c.initX sched).g.sh.owner = none := by
+  obtain ⟨h1, _, _, _, _, h6⟩ := C09_translated_observables c hc hf sched
+  rw [h1]
+  exact C09_lock_free_at_quiescence c hc sched (fun t => by rw [← h6]; exact hq t)
+
+/-- no deadlock in the translated system: while some thread is unfinished, some thread can step -/
+theorem C09_translated_progress (c : Cfg) (hc : c.OK) (hf : 0 < c.frac) (sched : List Tid) (t : Tid)
+    (ht : ConcX.finished (ConcX.run c.initX sched) t = false) :
+    ∃ u, (ConcX.step (ConcX.run c.initX sched) u).isSome = true := by
+  obtain ⟨_, _, _, _, _, h6⟩ := C09_translated_observables c hc hf sched
+  obtain ⟨u, hu⟩ := C09_progress c hc sched t (by rw [← h6]; exact ht)
+  refine ⟨u, ?_⟩
+  have hs := C09_translated_step_simulates _ _ u (C09_translated_schedule_simulates c hc hf sched)
+    (C09_conc_inv c hc sched) (by rw [ConcX.frac_run]; exact hf)
+  cases hst : step (run c.init sched) u with
+  | none => rw [hst] at hu; cases hu
+  | some s' =>
+    rw [hst] at hs
+    obtain ⟨x', hx', _⟩ := hs
+    rw [hx']; rfl
+
+/-- `cache` and `expiredCache` of the translated system never hold two different objects for one id (`SafeProgs`) -/
+theorem C09_translated_one_object_per_id_partial (c : Cfg) (hc : c.OK) (hf : 0 < c.frac) (hn : SafeProgs c)
+    (sched : List Tid) (i : Id) (o p : Obj) (h1 : aget (ConcX.run c.initX sched).g.sh.cache i = some o)
+    (h2 : aget (ConcX.run c.initX sched).g.sh.expiredCache i = some p) : o = p := by
+  obtain ⟨_, e2, e3, _, _, _⟩ := C09_translated_observables c hc hf sched
+  rw [e2] at h1; rw [e3] at h2
+  exact C09_one_object_per_id_partial c hc hn sched i o p h1 h2
+
+/-- all completed operations of the translated system on one id returned the same object, unless an `expire(id)`
+    removed one of them in between (`stale` is the ghost list of `Conc`'s run of the same schedule) -/
+theorem C09_translated_same_object_partial (c : Cfg) (hc : c.OK) (hf : 0 < c.frac) (hn : SafeProgs c) (sched : List Tid)
+    (t u : Tid) (i : Id) (o p : Obj)
+    (ht : Out.obj i o ∈ ((ConcX.run c.initX sched).th t).outs) (hu : Out.obj i p ∈ ((ConcX.run c.initX sched).th u).outs)
+    (ho : o ∉ (run c.init sched).stale) (hp : p ∉ (run c.init sched).stale) : o = p := by
+  obtain ⟨_, _, _, _, e5, _⟩ := C09_translated_observables c hc hf sched
+  rw [e5] at ht hu
+  exact C09_same_object_partial c hc hn sched t u i o p ht hu ho hp
+
+/-- no operation of the translated system ends with an exception other than the documented not-found (`SafeProgs`) -/
+theorem C09_translated_no_exception_but_notfound_partial (c : Cfg) (hc : c.OK) (hf : 0 < c.frac) (hn : SafeProgs c)
+    (sched : List Tid) (t : Tid) (e : Exc) : Out.exc e ∉ ((ConcX.run c.initX sched).th t).outs := by
+  obtain ⟨_, _, _, _, e5, _⟩ := C09_translated_observables c hc hf sched
+  rw [e5]
+  exact C09_no_exception_but_notfound_partial c hc hn sched t e
+
+/-- the FULL statement is false of the translated system too: the translated `created` inserting during the
+    translated `expireAll`'s iteration makes its `next()` raise RuntimeError -/
+theorem C09_translated_no_exception_but_notfound_full_FALSE :
+    ¬ (∀ (c : Cfg), c.OK → 0 < c.frac → ∀ (sched : List Tid) (t : Tid) (e : Exc),
+        Out.exc e ∉ ((ConcX.run c.initX sched).th t).outs) := by
+  intro h
+  have := h wCreateExpireAll C09_wCreateExpireAll_OK (by decide) schedRuntimeError 1 .runtimeError
+  rw [(C09_translated_observables wCreateExpireAll C09_wCreateExpireAll_OK (by decide) schedRuntimeError).2.2.2.2.1 1] at this
+  exact this (by decide)
+
+/-- … and two instances for one row (`create` vs `get`) -/
+theorem C09_translated_same_object_full_FALSE :
+    ¬ (∀ (c : Cfg), c.OK → 0 < c.frac → ∀ (sched : List Tid) (t u : Tid) (i : Id) (o p : Obj),
+        Out.obj i o ∈ ((ConcX.run c.initX sched).th t).outs → Out.obj i p ∈ ((ConcX.run c.initX sched).th u).outs →
+        o ∉ (run c.init sched).stale → p ∉ (run c.init sched).stale → o = p) := by
+  intro h
+  have e5 := (C09_translated_observables wCreateGet C09_wCreateGet_OK (by decide) schedTwo).2.2.2.2.1
+  have := h wCreateGet C09_wCreateGet_OK (by decide) schedTwo 0 1 7 1 2 (by rw [e5]; decide) (by rw [e5]; decide)
+    (by decide) (by decide)
+  revert this
+  decide
+
+/-- no statement of the translated methods in scope makes more than one dict operation / lock operation /
+    `cullCount` write: a micro-step of the small-step semantics never fuses two shared accesses -/
+theorem C09_translated_one_access_per_statement :
+    ∀ b ∈ ConcX.scopeProgs, ConcX.blockMaxAcc b ≤ 1 := ConcX.scope_one_access
+
+/-- a step of the translated system touches the shared dicts / the lock / `cullCount` / the binding of `self.cache` AT
+    MOST ONCE, by its first micro-step: every later micro-step of the step is silent (`nextAccess = none`), and a silent
+    micro-step leaves them alone — for every program, heap model and method table -/
+theorem C09_translated_silent_frame {H : Type} (ops : PyCacheSS.HeapOps H) (meths : PyCacheSS.Meths) (t : Tid)
+    (sh sh' : PyCacheSS.Shared H) (m m' : PyCacheSS.MTh) (hn : PyCacheSS.nextAccess ops t sh m = none)
+    (hm : PyCacheSS.micro ops meths t sh m = some (m', sh')) :
+    sh'.cache = sh.cache ∧ sh'.expiredCache = sh.expiredCache ∧ sh'.owner = sh.owner ∧ sh'.cullCount = sh.cullCount ∧
+    sh'.gen = sh.gen :=
+  PyCacheSS.silent_frame ops meths t sh m m' sh' hn hm
+
+/-- THE SMALL-STEP SEMANTICS IS THE BIG-STEP ONE when a thread runs alone (`Lemmas/PyCacheSSSeq.lean`, all 25
+    statement forms, for every block that passes the decidable check `seqOKB`: a loop over a dict does not write it,
+    `self.cache` is iterated under the lock — true of every translated method by `decide`): if the reference semantics
+    `PyCache.run` (the one C04's theorems are about, with its own heap `World`) returns `v` in world `w`, then the
+    micro-steps of `PyCacheSS.micro` from `MTh.start` reach `return v` (or the end of the body when `v` is `None`) in a
+    shared state whose image is `w`, with the alias bookkeeping back to rest.  Here for `get` with its embedded
+    `self.cull()` exactly as `CacheX.getX` (C04) and `ConcX` (C09) run it. -/
+theorem C09_translated_smallstep_run_eq_bigstep (t : Tid) (sh : PyCacheSS.Shared PyCacheSS.WH) (hg : PyCacheSS.Good sh)
+    (k : Nat) (w : PyCache.World) (v : PyCache.Val)
+    (h : Cache.getX (PyCacheSS.worldOf sh) k = .ret w v) :
+    ∃ n m' sh', PyCacheSS.iter ConcX.meths t n (PyCacheSS.MTh.start PyCache.Extracted.getProg [.key k]
+        PyCache.Extracted.get_nlocals PyCache.Extracted.get_nlists, sh) = some (m', sh') ∧
+      (m'.result = some (.ret v) ∨ (m'.result = some .norm ∧ v = .none)) ∧ PyCacheSS.worldOf sh' = w ∧ PyCacheSS.Good sh' :=
+  PyCacheSS.run_ret t PyCacheSS.callTable_meths PyCacheSS.meths_ok _ _ _ _ sh hg PyCacheSS.getProg_ok h
+
+/-- non-vacuity: the translated system run on a concrete configuration and schedule (kernel evaluation of the
+    small-step semantics on the extracted programs) -/
+example : ((ConcX.run wCreateGet.initX schedTwo).th 1).outs = [.obj 7 2] ∧
+    (ConcX.run wCreateGet.initX schedTwo).g.sh.cache = [(1, 0), (7, 1)] ∧
+    (ConcX.run wCreateGet.initX schedTwo).g.sh.owner = none := by decide
 
 end SqlObjVerif.Conc
